@@ -98,6 +98,7 @@ pub fn run_enum(e: &WireEngine, ctx: &Ctx) {
     let cands: Vec<usize> = irx
         .eps
         .iter()
+        .filter(|m| m.idx < irx.generated)
         .filter(|m| {
             if request_side {
                 m.body_arg().map(|b| !irx.is_binary(&b.ty)).unwrap_or(false)
@@ -239,6 +240,7 @@ pub fn run_enum(e: &WireEngine, ctx: &Ctx) {
                 FK::CtParams,
                 FK::StatusFlip,
                 FK::UnknownField,
+                FK::TypeConfusion,
                 FK::ByteFlip,
             ]
         };
